@@ -208,7 +208,31 @@ def r06_8(ctx):
     ctx.floor("R06.8", "stack-clearing-contexts", len(used), 3)
 
 
+SKELETON_MODES = ("Initial", "BeforeHtml", "BeforeHead", "InHead", "InHeadNoscript", "AfterHead", "AfterBody", "InFrameset", "AfterFrameset", "AfterAfterBody", "AfterAfterFrameset")
+
+
+def r06_9(ctx):
+    """the rows of the insertion modes that build the html / head / body-or-frameset skeleton are the standard's (shared with R02.11)"""
+    from lib import rowcmp
+    cur = nf_common.area_current(ctx, TB)
+    ks = [k for k in cur if k.endswith("rules::TreeBuilder<Handle,Sink>::step")]
+    if len(ks) != 1 or cur[ks[0]]["kind"] != "paths":
+        raise AnchorMissing("TreeBuilder::step has no path normal form")
+    cells = cur[ks[0]]["cells"]
+    modes = set()
+    for c in cells:
+        for g in c["guards"]:
+            if g.startswith("p1 matches "):
+                modes.update(a.strip() for a in g[len("p1 matches "):].split("|"))
+    n = rowcmp.compare(cells, modes, lambda k, d: ctx.ob("R06.9", k, True, d),
+                       lambda k, kind, d: ctx.ob("R06.9", k + "/" + kind, False, d, "html5ever tree_builder rules.rs step vs ref/whatwg_rows.py"),
+                       summaries=nf_common.crate_summaries(ctx, "html5ever"), only_modes=SKELETON_MODES)
+    ctx.floor("R06.9", "skeleton-row-situations", n, 150)
+
+
 def run(ctx):
+    ctx.rule("R06.9", "the rows of the eleven insertion modes that create html, head, body / frameset and leave them are the standard's (steps and conditions)")
+    ctx.guard("R06.9", "skeleton-rows", lambda: r06_9(ctx))
     ctx.rule("R06.8", "the sets that bound 'clear the stack back to a ... context' contain html and template")
     ctx.guard("R06.8", "contexts", lambda: r06_8(ctx))
     ctx.rule("R06.7", "in a frameset document no formatting element is reconstructed under html")
